@@ -684,6 +684,21 @@ func placementG(v *GVerdict, sp *spec.Spec, t *spec.Type, value any, locs []spec
 		for _, md := range mds {
 			vals = append(vals, md.MD[key]...)
 		}
+		if arr, isArr := sent.([]any); isArr {
+			// an array travels as one metadata value per element, in order; an empty array as absence
+			switch {
+			case len(arr) != len(vals):
+				v.add(fmt.Sprintf("%s:%s:%s:value", prefix, mdKind, kind), "attribute %q=%s travels as %s=%q", l.Attr, vtree.Show(sent), key, vals)
+			default:
+				for i := range arr {
+					if !mdValueMatches(arr[i], vals[i]) {
+						v.add(fmt.Sprintf("%s:%s:%s:value", prefix, mdKind, kind), "attribute %q=%s travels as %s=%q", l.Attr, vtree.Show(sent), key, vals)
+						break
+					}
+				}
+			}
+			continue
+		}
 		switch {
 		case sent == nil && len(vals) > 0 && !a.HasDef:
 			v.add(fmt.Sprintf("%s:%s:%s:spurious", prefix, mdKind, kind), "attribute %q is unset but %s carries %s=%q", l.Attr, mdKind, key, vals)
